@@ -1,10 +1,13 @@
 package main
 
 import (
+	"encoding/json"
 	"errors"
 	"fmt"
 	"math/rand"
+	"os"
 	"sort"
+	"strconv"
 	"strings"
 	"sync/atomic"
 	"time"
@@ -41,19 +44,45 @@ type pendingCall struct {
 // Real interprets expressions against the real runtime library, judging every library call locally:
 // the reference is applied to the canonical form of the ACTUAL arguments of that call.
 type Real struct {
-	rng     *rand.Rand
-	discs   []Disc
-	calls   int // judged library calls
-	unknown int // calls the reference declined to predict
-	skipped int // calls skipped (quarantined operator shapes / results too large)
-	triples map[string]int
-	pending atomic.Pointer[pendingCall]
-	quar    map[string]bool
-	noMeta  bool // disable the order-dependence re-runs (used while shrinking / classifying)
+	rng      *rand.Rand
+	discs    []Disc
+	calls    int // judged library calls
+	unknown  int // calls the reference declined to predict
+	skipped  int // calls skipped (quarantined operator shapes / results too large)
+	triples  map[string]int
+	pending  atomic.Pointer[pendingCall]
+	quar     map[string]bool
+	pendFile *os.File // the pending library call is also kept on disk: it survives a killed or crashed child
+	noMeta   bool     // disable the order-dependence re-runs (used while shrinking / classifying)
 }
 
 func NewReal(rng *rand.Rand, quar map[string]bool) *Real {
 	return &Real{rng: rng, triples: map[string]int{}, quar: quar}
+}
+
+const maxArgNodes = 4000
+
+// maxSeqBase: VERIF_C03_SEQCAP overrides it (development aid, to watch the factorial blow-up being keyed)
+var maxSeqBase = func() int {
+	if n, err := strconv.Atoi(os.Getenv("VERIF_C03_SEQCAP")); err == nil && n > 0 {
+		return n
+	}
+	return 6
+}()
+
+// persistPending writes the pending call at offset 0 of the pending file ("x" = none).
+func (r *Real) persistPending(pc *pendingCall) {
+	if r.pendFile == nil {
+		return
+	}
+	buf := []byte("x\n")
+	if pc != nil {
+		if b, err := json.Marshal(map[string]any{"op": pc.Node.Op, "sig": pc.Sig, "node": pc.Node, "env": pc.Env, "ref_steps": pc.RefSteps}); err == nil {
+			buf = append(b, '\n')
+		}
+	}
+	r.pendFile.WriteAt(buf, 0)
+	r.pendFile.Truncate(int64(len(buf)))
 }
 
 type abortCase struct{ why string }
@@ -488,11 +517,30 @@ func (r *Real) call(e *rv.Expr, args []tla.Value, subKeys [][]tla.Value, env []t
 		r.skipped++
 		panic(abortCase{"quarantined after confirmed hang: " + e.Op + sig})
 	}
+	// workload caps: the n! blow-up of ModuleSeq is a recorded defect (C03:ModuleSeq:(set):hang); beyond
+	// maxSeqBase elements the call would only burn the budget, and values of thousands of nodes make the
+	// harness's own canonicalisation quadratic.
+	if e.Op == "ModuleSeq" && len(argLits) == 1 && argLits[0].T == "set" && len(argLits[0].Xs) > maxSeqBase {
+		r.skipped++
+		panic(abortCase{"Seq of a set with more than 6 elements (known factorial blow-up)"})
+	}
+	total := 0
+	for _, l := range argLits {
+		total += litSize(l)
+	}
+	if total > maxArgNodes {
+		r.skipped++
+		panic(abortCase{"arguments too large for the harness"})
+	}
 	node := standalone(e, argLits, keyLits)
 	before := len(r.discs)
-	r.pending.Store(&pendingCall{Node: node, Env: envLits, Sig: sig, RefSteps: x.steps, Start: time.Now()})
+	outer := r.pending.Load()
+	pc := &pendingCall{Node: node, Env: envLits, Sig: sig, RefSteps: x.steps, Start: time.Now()}
+	r.pending.Store(pc)
+	r.persistPending(pc)
 	o := r.try(e, args, subKeys, env)
-	r.pending.Store(nil)
+	r.pending.Store(outer) // the enclosing library call (whose body we are in) is pending again
+	r.persistPending(outer)
 	r.calls++
 	r.triples[e.Op+" "+sig+" "+o.kind]++
 	tainted := len(r.discs) != before
